@@ -1,6 +1,6 @@
 From Coq Require Import ZArith List Bool Lia.
 From Arsenal Require Import Util.
-From Arsenal Require VamDev VamBlockList Vam VamInv VamInvThm VamAcctThm VamMap VamMapThm VamDefrag VamDefragThm VamDefragAcct VamDefragMap VamHvThm VamDefragHv VamFlush VamFlushThm VamBindCreate.
+From Arsenal Require VamDev VamBlockList Vam VamInv VamInvThm VamAcctThm VamMap VamMapThm VamDefrag VamDefragThm VamDefragAcct VamDefragMap VamHvThm VamDefragHv VamFlush VamFlushThm VamBindCreate VamAllocArgs VamValidUsage.
 From Arsenal Require Import SyncMem SyncMemProofs.
 Import ListNotations.
 Open Scope Z_scope.
@@ -133,6 +133,41 @@ Theorem C08_allocator_create_bind_valid : forall c v o f v' calls,
   end.
 Proof. intros c v o f v' calls Ha. exact (VamBindCreate.create_bind_valid c Ha v o f v' calls). Qed.
 Print Assumptions C08_allocator_create_bind_valid.
+(* SUMMARY: every driver call the library issues during one API operation, from any state of any history (with
+   defragmentation), for any fault oracle, satisfies the valid-usage rules the simulated device enforces:
+   - replay: map only of a live unmapped object, unmap only of a live mapped one, free only of a live one, bind and
+     flush only on live objects with the range inside the object (no use after free, no double map);
+   - maps_hv: only host-visible memory is mapped;  flushes_ok: flush ranges atom-aligned or ending at the object's end;
+   - call_args_ok: vkAllocateMemory with size > 0, a valid memory type index, dedicated-allocation info only on the
+     resource entry points, naming their own resource, with exactly the size of its requirement; create / destroy /
+     requirements / bind through the entry point of the resource's own kind, on the operation's own resource;
+   - op_bind_usage (successful CreateBuffer / CreateImage / AllocateMemoryForBuffer|Image): the resource is fresh and unbound
+     until its bind, the bind names the new allocation's own memory object at its own offset, the offset is a
+     multiple of the RESOURCE's required alignment, offset + required size fits the object, outside custom pools the
+     memory type is in the resource's memoryTypeBits, a dedicated allocation is bound at 0 and was allocated for
+     this resource, and a resource that requires a dedicated allocation gets one (API >= 1.1);
+   - op_bind_direct: a user Bind*Memory names the allocation's own live object at caller offset + allocation offset.
+   Domain: heaps of at least 8 bytes (heaps_min), user Map only of allocations in host-visible memory, pools chosen
+   compatible with the resource (caller's obligation, C02_type_permitted_pool_refuted), CanAlias not combined with a
+   resource that requires a dedicated allocation. *)
+Theorem C08_allocator_library_calls_valid_usage : forall c v run o f v' r calls,
+  cfg_acct c -> VamAllocArgs.heaps_min c -> VamDefragAcct.reachDA c v run -> op_ok v o -> op_dom o ->
+  VamHvThm.op_map_ok c v o -> step c v o f = (v', r, calls) -> r <> RPanic -> r <> RStuck ->
+  replay (m_mems (v_m v)) calls (m_mems (v_m v')) /\
+  VamHvThm.maps_hv c (m_mems (v_m v)) calls /\
+  VamFlush.flushes_ok c (m_mems (v_m v)) calls /\
+  List.Forall (VamAllocArgs.call_args_ok c (VamAllocArgs.op_res v o) (VamAllocArgs.op_ded c v o) (VamAllocArgs.op_flushes o)) calls /\
+  (r = ROk -> VamValidUsage.op_bind_usage c v v' calls o) /\ VamValidUsage.op_bind_direct v calls o.
+Proof. intros c v run o f v' r calls Ha Hm. exact (VamValidUsage.library_calls_valid_usage c Ha Hm v run o f v' r calls). Qed.
+Print Assumptions C08_allocator_library_calls_valid_usage.
+
+Theorem C08_allocator_library_calls_valid_usage_defrag : forall c v run o f v' run' r calls dr,
+  cfg_acct c -> VamDefragAcct.reachDA c v run -> VamDefragThm.dop_ok v run o ->
+  Vam.dstep c v run o f = (v', run', r, calls, dr) -> r <> RPanic -> r <> RStuck ->
+  replay (m_mems (v_m v)) calls (m_mems (v_m v')) /\ VamHvThm.maps_hv c (m_mems (v_m v)) calls /\
+  List.Forall VamAllocArgs.mem_call calls.
+Proof. intros c v run o f v' run' r calls dr Ha. exact (VamValidUsage.library_calls_valid_usage_dstep c Ha v run o f v' run' r calls dr). Qed.
+Print Assumptions C08_allocator_library_calls_valid_usage_defrag.
 End Allocator.
 
 (* second tie, allocator level: the flush / invalidate range computation of vam/allocation.go and the minimum
